@@ -444,7 +444,7 @@ def childLeftVal (zl kl : Bytes) : Nat := Bytes.toNatLE (zl.take 28) * 8 + Bytes
 theorem kholawNewLeft_kholaw_eq (zl kl : Bytes) :
     kholawNewLeft .kholaw zl kl =
       if childLeftVal zl kl % edL = 0 then .error .key
-      else if 2 ^ 256 ≤ childLeftVal zl kl then .error .key
+      else if 2 ^ 255 ≤ childLeftVal zl kl then .error .key
       else toBytesLE (childLeftVal zl kl) 32 := by
   unfold kholawNewLeft childLeftVal
   rw [if_neg (by decide)]
@@ -466,22 +466,35 @@ theorem kholaw_child_left_spec (zl kl r : Bytes) (h : kholawNewLeft .kholaw zl k
     · cases h
     · exact toBytesLE_toNatLE h
 
+/-- it succeeds exactly when the sum is `≢ 0 (mod L)` and below `2^255` (the bound of the second
+library repair; `2^256` after the first) -/
 theorem kholaw_child_left_ok_iff (zl kl : Bytes) :
     (∃ r, kholawNewLeft .kholaw zl kl = .ok r) ↔
-      childLeftVal zl kl % edL ≠ 0 ∧ childLeftVal zl kl < 2 ^ 256 := by
+      childLeftVal zl kl % edL ≠ 0 ∧ childLeftVal zl kl < 2 ^ 255 := by
   rw [kholawNewLeft_kholaw_eq]
   by_cases hz : childLeftVal zl kl % edL = 0
   · rw [if_pos hz]; simp [hz]
   · rw [if_neg hz]
-    by_cases hv : 2 ^ 256 ≤ childLeftVal zl kl
+    by_cases hv : 2 ^ 255 ≤ childLeftVal zl kl
     · rw [if_pos hv]
       constructor
       · rintro ⟨r, h⟩; cases h
       · rintro ⟨_, h⟩; omega
-    · rw [if_neg hv, toBytesLE_ok_iff, pow256_32]; simp [hz]
+    · rw [if_neg hv, toBytesLE_ok_iff, pow256_32]
+      constructor
+      · intro _; exact ⟨hz, by omega⟩
+      · intro _; omega
 
-/-- every failure of the Khovratovich-Law left half is a `Bip32KeyError` (since the library fix
-there is no `OverflowError` any more) -/
+/-- **new_left_below_2_255**: a successful new left half is below `2^255` — bit 255 is clear, so
+libsodium's no-clamp multiplication (which ignores bit 255) multiplies by the stored value itself -/
+theorem kholaw_child_left_lt_2_255 (zl kl r : Bytes) (h : kholawNewLeft .kholaw zl kl = .ok r) :
+    Bytes.toNatLE r < 2 ^ 255 := by
+  have hv := (kholaw_child_left_spec zl kl r h).1
+  have := ((kholaw_child_left_ok_iff zl kl).mp ⟨r, h⟩).2
+  unfold childLeftVal at this; omega
+
+/-- every failure of the Khovratovich-Law left half is a `Bip32KeyError` (since the first library
+fix there is no `OverflowError` any more) -/
 theorem kholaw_child_left_errors (zl kl : Bytes) (e : Err) (h : kholawNewLeft .kholaw zl kl = .error e) :
     e = .key := by
   rw [kholawNewLeft_kholaw_eq] at h
@@ -492,10 +505,11 @@ theorem kholaw_child_left_errors (zl kl : Bytes) (e : Err) (h : kholawNewLeft .k
     · next hv =>
       rw [toBytesLE_eq_ok _ _ (by rw [pow256_32]; omega)] at h; cases h
 
-/-- it raises `Bip32KeyError` exactly when the sum is `≡ 0 (mod L)` or needs more than 32 bytes -/
+/-- it raises `Bip32KeyError` exactly when the sum is `≡ 0 (mod L)` or is `≥ 2^255` (has bit 255
+set or needs more than 32 bytes; the bound was `2^256` before the second library repair) -/
 theorem kholaw_child_left_key_iff (zl kl : Bytes) :
     kholawNewLeft .kholaw zl kl = .error .key ↔
-      childLeftVal zl kl % edL = 0 ∨ 2 ^ 256 ≤ childLeftVal zl kl := by
+      childLeftVal zl kl % edL = 0 ∨ 2 ^ 255 ≤ childLeftVal zl kl := by
   constructor
   · intro h
     by_contra hn
@@ -511,7 +525,7 @@ theorem kholaw_child_left_key_iff (zl kl : Bytes) :
 /-- any failure at all is equivalent to that condition -/
 theorem kholaw_child_left_error_iff (zl kl : Bytes) (e : Err) :
     kholawNewLeft .kholaw zl kl = .error e ↔
-      e = .key ∧ (childLeftVal zl kl % edL = 0 ∨ 2 ^ 256 ≤ childLeftVal zl kl) := by
+      e = .key ∧ (childLeftVal zl kl % edL = 0 ∨ 2 ^ 255 ≤ childLeftVal zl kl) := by
   constructor
   · intro h
     have he := kholaw_child_left_errors zl kl e h
@@ -519,14 +533,16 @@ theorem kholaw_child_left_error_iff (zl kl : Bytes) (e : Err) :
     exact ⟨rfl, (kholaw_child_left_key_iff zl kl).mp h⟩
   · rintro ⟨rfl, h⟩; exact (kholaw_child_left_key_iff zl kl).mpr h
 
-/-- `OverflowError` (`int.to_bytes`) is never raised: a sum `≥ 2^256` is refused with
-`Bip32KeyError` before the conversion -/
+/-- `OverflowError` (`int.to_bytes`) is never raised: a sum `≥ 2^255` (a fortiori `≥ 2^256`) is
+refused with `Bip32KeyError` before the conversion -/
 theorem kholaw_child_left_never_overflow (zl kl : Bytes) :
     kholawNewLeft .kholaw zl kl ≠ .error .overflow := by
   intro h
   cases kholaw_child_left_errors zl kl _ h
 
-/-- **kholaw_child_invariant**: divisibility by 8 is inherited, each level adds less than `2^227` -/
+/-- **kholaw_child_invariant**: divisibility by 8 is inherited, each level adds less than `2^227`
+(the last clause is kept from the time of the `2^256` bound; its conclusion now holds without the
+hypothesis, see `kholaw_child_left_lt_2_255`) -/
 theorem kholaw_child_invariant (zl kl r : Bytes) (h : kholawNewLeft .kholaw zl kl = .ok r) :
     (8 ∣ Bytes.toNatLE kl → 8 ∣ Bytes.toNatLE r) ∧
     Bytes.toNatLE kl ≤ Bytes.toNatLE r ∧
@@ -569,25 +585,39 @@ theorem kholaw_depth_bound_master (zs : List Bytes) (kl r : Bytes) (hm : Bytes.t
     (h : kholawLeftChain zs kl = .ok r) : Bytes.toNatLE r < 2 ^ 255 + zs.length * 2 ^ 227 := by
   have := (kholaw_depth_bound zs kl r h).1; omega
 
-/-- hence below `2^256` for every depth the library allows (`≤ 255`; in fact up to `2^28` levels) -/
+/-- since the second library repair (size test at `2^255`) a chain that succeeds stays below `2^255`
+at every depth: each successful level is below `2^255` by the test itself -/
+theorem kholawLeftChain_lt_2_255 (zs : List Bytes) (kl r : Bytes) (hm : Bytes.toNatLE kl < 2 ^ 255)
+    (h : kholawLeftChain zs kl = .ok r) : Bytes.toNatLE r < 2 ^ 255 := by
+  induction zs generalizing kl with
+  | nil =>
+    have : kl = r := by simpa [kholawLeftChain, pure, Except.pure] using h
+    subst this; exact hm
+  | cons z zs ih =>
+    rw [kholawLeftChain_cons] at h
+    obtain ⟨k1, h1, h2⟩ := (Slip10.bind_ok_iff _ _ _).mp h
+    exact ih k1 (kholaw_child_left_lt_2_255 z kl k1 h1) h2
+
+/-- hence below `2^255` (before the second library repair: `2^256`) for every depth the library
+allows (`≤ 255`; the depth hypothesis is kept for the callers but is no longer used) -/
 theorem kholaw_depth_bound_256 (zs : List Bytes) (kl r : Bytes) (hm : Bytes.toNatLE kl < 2 ^ 255)
-    (hd : zs.length ≤ 255) (h : kholawLeftChain zs kl = .ok r) : Bytes.toNatLE r < 2 ^ 256 := by
-  have := kholaw_depth_bound_master zs kl r hm h
-  have : zs.length * 2 ^ 227 ≤ 255 * 2 ^ 227 := Nat.mul_le_mul_right _ hd
-  omega
+    (_hd : zs.length ≤ 255) (h : kholawLeftChain zs kl = .ok r) : Bytes.toNatLE r < 2 ^ 255 :=
+  kholawLeftChain_lt_2_255 zs kl r hm h
 
 theorem kholawLeftChain_append (pre post : List Bytes) (kl : Bytes) :
     kholawLeftChain (pre ++ post) kl = kholawLeftChain pre kl >>= kholawLeftChain post := by
   unfold kholawLeftChain; rw [List.foldlM_append]
 
-/-- … so the size refusal (the sum needing more than 32 bytes; `OverflowError` before the library
-fix, `Bip32KeyError` since) never happens along a chain of at most `2^28` levels (the library's
-depth limit is 255) starting from a scalar below `2^255`: at every level of the chain — after any
-prefix `pre` that succeeded with `r`, for the next `z` — the sum is below `2^256` -/
+/-- … so the size refusal (the sum `≥ 2^255`; originally `OverflowError` for `≥ 2^256`, then
+`Bip32KeyError` for `≥ 2^256`, and since the second library repair `Bip32KeyError` for `≥ 2^255`)
+never happens along a chain with `kL₀ + d·2^227 ≤ 2^255` — in particular (`kholaw_no_overflow_master`)
+from a master scalar, which is below `2^254 + 2^253`, for up to `2^26` levels (the library's depth
+limit is 255): at every level of the chain — after any prefix `pre` that succeeded with `r`, for the
+next `z` — the sum is below `2^255` -/
 theorem kholaw_no_overflow (zs : List Bytes) (kl : Bytes)
-    (hm : Bytes.toNatLE kl + zs.length * 2 ^ 227 ≤ 2 ^ 256)
+    (hm : Bytes.toNatLE kl + zs.length * 2 ^ 227 ≤ 2 ^ 255)
     (pre : List Bytes) (z : Bytes) (post : List Bytes) (hzs : zs = pre ++ z :: post) (r : Bytes)
-    (hr : kholawLeftChain pre kl = .ok r) : childLeftVal z r < 2 ^ 256 := by
+    (hr : kholawLeftChain pre kl = .ok r) : childLeftVal z r < 2 ^ 255 := by
   have hb := (kholaw_depth_bound pre kl r hr).1
   have hlt := childLeftVal_lt z r
   subst hzs
@@ -596,7 +626,7 @@ theorem kholaw_no_overflow (zs : List Bytes) (kl : Bytes)
 
 /-- hence along such a chain the only reason for a level to fail is `≡ 0 (mod L)` -/
 theorem kholaw_chain_step_error_iff (zs : List Bytes) (kl : Bytes)
-    (hm : Bytes.toNatLE kl + zs.length * 2 ^ 227 ≤ 2 ^ 256)
+    (hm : Bytes.toNatLE kl + zs.length * 2 ^ 227 ≤ 2 ^ 255)
     (pre : List Bytes) (z : Bytes) (post : List Bytes) (hzs : zs = pre ++ z :: post) (r : Bytes)
     (hr : kholawLeftChain pre kl = .ok r) (e : Err) :
     kholawNewLeft .kholaw z r = .error e ↔ e = .key ∧ childLeftVal z r % edL = 0 := by
@@ -609,12 +639,12 @@ theorem kholaw_chain_step_error_iff (zs : List Bytes) (kl : Bytes)
   · rintro ⟨he, h⟩; exact ⟨he, Or.inl h⟩
 
 /-- … and a failing chain fails with `Bip32KeyError` at a level whose sum is `≡ 0 (mod L)` (and
-below `2^256`) -/
+below `2^255`) -/
 theorem kholaw_chain_error (zs : List Bytes) (kl : Bytes)
-    (hm : Bytes.toNatLE kl + zs.length * 2 ^ 227 ≤ 2 ^ 256) (e : Err)
+    (hm : Bytes.toNatLE kl + zs.length * 2 ^ 227 ≤ 2 ^ 255) (e : Err)
     (h : kholawLeftChain zs kl = .error e) :
     e = .key ∧ ∃ pre z post r, zs = pre ++ z :: post ∧ kholawLeftChain pre kl = .ok r ∧
-      childLeftVal z r % edL = 0 ∧ childLeftVal z r < 2 ^ 256 := by
+      childLeftVal z r % edL = 0 ∧ childLeftVal z r < 2 ^ 255 := by
   induction zs generalizing kl with
   | nil => simp [kholawLeftChain, pure, Except.pure] at h
   | cons z zs ih =>
@@ -632,39 +662,62 @@ theorem kholaw_chain_error (zs : List Bytes) (kl : Bytes)
       refine ⟨he, z :: pre, z', post, r, by rw [hzs]; rfl, ?_, hmod, hlt⟩
       rw [kholawLeftChain_cons, h1]; exact hr
 
-theorem kholaw_no_overflow_master (zs : List Bytes) (kl : Bytes) (hm : Bytes.toNatLE kl < 2 ^ 255)
+/-- from a master scalar (`< 2^254 + 2^253`: bit 255 clear, bit 253 clear — `Clamped.lt`) and for
+at most 255 levels.  The hypothesis `kL < 2^255` that sufficed for the `2^256` bound does not suffice
+for the `2^255` one (`kholaw_size_refusal_below_2_255`). -/
+theorem kholaw_no_overflow_master (zs : List Bytes) (kl : Bytes)
+    (hm : Bytes.toNatLE kl < 2 ^ 254 + 2 ^ 253)
     (hd : zs.length ≤ 255)
     (pre : List Bytes) (z : Bytes) (post : List Bytes) (hzs : zs = pre ++ z :: post) (r : Bytes)
-    (hr : kholawLeftChain pre kl = .ok r) : childLeftVal z r < 2 ^ 256 := by
+    (hr : kholawLeftChain pre kl = .ok r) : childLeftVal z r < 2 ^ 255 := by
   apply kholaw_no_overflow zs kl _ pre z post hzs r hr
   have : zs.length * 2 ^ 227 ≤ 255 * 2 ^ 227 := Nat.mul_le_mul_right _ hd
   omega
 
-theorem kholaw_chain_error_master (zs : List Bytes) (kl : Bytes) (hm : Bytes.toNatLE kl < 2 ^ 255)
+theorem kholaw_chain_error_master (zs : List Bytes) (kl : Bytes)
+    (hm : Bytes.toNatLE kl < 2 ^ 254 + 2 ^ 253)
     (hd : zs.length ≤ 255) (e : Err) (h : kholawLeftChain zs kl = .error e) :
     e = .key ∧ ∃ pre z post r, zs = pre ++ z :: post ∧ kholawLeftChain pre kl = .ok r ∧
-      childLeftVal z r % edL = 0 ∧ childLeftVal z r < 2 ^ 256 := by
+      childLeftVal z r % edL = 0 ∧ childLeftVal z r < 2 ^ 255 := by
   apply kholaw_chain_error zs kl _ e h
   have : zs.length * 2 ^ 227 ≤ 255 * 2 ^ 227 := Nat.mul_le_mul_right _ hd
   omega
 
-/-- both reasons for refusal can hold at once: a sum of exactly `16·L > 2^256` (the `% L` test is
-the one that fires, it comes first) is reported as `Bip32KeyError` -/
+/-- both reasons for refusal can hold at once: a sum of exactly `8·L > 2^255` (the `% L` test is
+the one that fires, it comes first) is reported as `Bip32KeyError`.  Witness: `zL = (L - 2^252) + 1`,
+`kL = 2^255 - 8`, so `8·zL + kL = 2^255 + 8·(L - 2^252) = 8·L`.  (The name dates from the `2^256`
+bound of the first library repair, when the witness was `16·L`.) -/
 theorem kholaw_child_left_key_above_2_256 :
-    ∃ zl kl : Bytes, zl.length = 32 ∧ kl.length = 32 ∧ 2 ^ 256 ≤ childLeftVal zl kl ∧
+    ∃ zl kl : Bytes, zl.length = 32 ∧ kl.length = 32 ∧ 2 ^ 255 ≤ childLeftVal zl kl ∧
       childLeftVal zl kl % edL = 0 ∧ kholawNewLeft .kholaw zl kl = .error .key := by
-  refine ⟨Bytes.ofNatLE 32 55484635554744707071703875581767296987, Bytes.ofNatLE 32 (2 ^ 256 - 8),
+  refine ⟨Bytes.ofNatLE 32 27742317777372353535851937790883648494, Bytes.ofNatLE 32 (2 ^ 255 - 8),
     by simp, by simp, ?_, ?_, ?_⟩
   · decide +kernel
   · decide +kernel
   · rw [kholaw_child_left_key_iff]; exact Or.inl (by decide +kernel)
 
-/-- the size refusal on its own: a sum `≥ 2^256` that is *not* a multiple of `L` is reported as
-`Bip32KeyError` too (this is the case that raised `OverflowError` before the library fix) -/
+/-- the size refusal on its own: a sum `≥ 2^255` that is *not* a multiple of `L` is reported as
+`Bip32KeyError` too (sums `≥ 2^256` raised `OverflowError` before the first library fix; sums in
+`[2^255, 2^256)` were accepted until the second one).  Witness: `zL = 1`, `kL = 2^255 - 8`, sum
+exactly `2^255`. -/
 theorem kholaw_child_left_key_size_only :
-    ∃ zl kl : Bytes, zl.length = 32 ∧ kl.length = 32 ∧ 2 ^ 256 ≤ childLeftVal zl kl ∧
+    ∃ zl kl : Bytes, zl.length = 32 ∧ kl.length = 32 ∧ 2 ^ 255 ≤ childLeftVal zl kl ∧
       childLeftVal zl kl % edL ≠ 0 ∧ kholawNewLeft .kholaw zl kl = .error .key := by
-  refine ⟨Bytes.ofNatLE 32 1, Bytes.ofNatLE 32 (2 ^ 256 - 8), by simp, by simp, ?_, ?_, ?_⟩
+  refine ⟨Bytes.ofNatLE 32 1, Bytes.ofNatLE 32 (2 ^ 255 - 8), by simp, by simp, ?_, ?_, ?_⟩
+  · decide +kernel
+  · decide +kernel
+  · rw [kholaw_child_left_key_iff]; exact Or.inr (by decide +kernel)
+
+/-- the same witness read the other way: a hand-supplied parent scalar below `2^255` and a multiple
+of 8, but with bit 253 set (which no master key generator produces), *can* meet the size refusal at
+its first child — so `kL < 2^255` alone no longer excludes it, `kL < 2^254 + 2^253` does -/
+theorem kholaw_size_refusal_below_2_255 :
+    ∃ zl kl : Bytes, zl.length = 32 ∧ kl.length = 32 ∧ Bytes.toNatLE kl < 2 ^ 255 ∧
+      8 ∣ Bytes.toNatLE kl ∧ childLeftVal zl kl % edL ≠ 0 ∧ 2 ^ 255 ≤ childLeftVal zl kl ∧
+      kholawNewLeft .kholaw zl kl = .error .key := by
+  refine ⟨Bytes.ofNatLE 32 1, Bytes.ofNatLE 32 (2 ^ 255 - 8), by simp, by simp, ?_, ?_, ?_, ?_, ?_⟩
+  · decide +kernel
+  · decide +kernel
   · decide +kernel
   · decide +kernel
   · rw [kholaw_child_left_key_iff]; exact Or.inr (by decide +kernel)
@@ -839,13 +892,33 @@ theorem kholawChildKey_kholaw_priv_ok (nd c : Node) (idx : Nat) (k : Bytes)
   obtain ⟨a, b, _, d⟩ := kholawCkdPriv_kholaw_ok nd k idx k' cc hs h1
   exact ⟨k', rfl, hs, rfl, a, b, d⟩
 
+/-- the child of a private Khovratovich-Law node — whatever the parent key is, hand-supplied ones
+included — has a left scalar below `2^255` (the size test of the second library repair), so the
+scalar libsodium's no-clamp multiplication uses for the child's public key (`edNoClampScalar`, the
+value mod `2^255`) is the stored left half itself -/
+theorem kholawChildKey_kholaw_child_lt_2_255 (nd c : Node) (idx : Nat) (k : Bytes)
+    (hs : nd.scheme = .kholaw) (hp : nd.priv = some k) (h : kholawChildKey nd idx = .ok c) :
+    ∃ k', c.priv = some k' ∧ leftVal k' < 2 ^ 255 ∧ edNoClampScalar k' = leftVal k' ∧
+      pubOfPriv .ed25519Kholaw k' =
+        (if edMulBase (leftVal k') = edIdentity then none
+         else some (0 :: edEncode (edMulBase (leftVal k')))) := by
+  have hi := kholawChildKey_idx_lt nd idx c h
+  rw [kholawChildKey_priv nd idx k hi hp] at h
+  obtain ⟨⟨k', cc⟩, h1, h2⟩ := (Slip10.bind_ok_iff _ _ _).mp h
+  obtain ⟨_, h2⟩ := (Slip10.guard_ok_iff _ _ _).mp h2
+  obtain ⟨_, pub, _, rfl⟩ := (nodeOfPriv_ok_iff ..).mp h2
+  obtain ⟨_, _, hleft, _⟩ := kholawCkdPriv_kholaw_ok nd k idx k' cc hs h1
+  have hlt : leftVal k' < 2 ^ 255 := kholaw_child_left_lt_2_255 _ _ _ hleft
+  refine ⟨k', rfl, hlt, ?_, pubOfPriv_kholaw_eq k' hlt⟩
+  unfold edNoClampScalar; exact Nat.mod_eq_of_lt hlt
+
 /-- a private Khovratovich-Law derivation step fails only with `Bip32KeyError`, and exactly when
-the new left half is `≡ 0 (mod L)` or needs more than 32 bytes -/
+the new left half is `≡ 0 (mod L)` or is `≥ 2^255` -/
 theorem kholawCkdPriv_kholaw_error_iff (nd : Node) (priv : Bytes) (idx : Nat) (e : Err)
     (hs : nd.scheme = .kholaw) :
     kholawCkdPriv nd priv idx = .error e ↔
       e = .key ∧ (childLeftVal ((ckdZ nd priv idx).take 32) (priv.take 32) % edL = 0 ∨
-        2 ^ 256 ≤ childLeftVal ((ckdZ nd priv idx).take 32) (priv.take 32)) := by
+        2 ^ 255 ≤ childLeftVal ((ckdZ nd priv idx).take 32) (priv.take 32)) := by
   rw [← kholaw_child_left_error_iff]
   constructor
   · exact kholawCkdPriv_kholaw_error nd priv idx e hs
@@ -853,7 +926,8 @@ theorem kholawCkdPriv_kholaw_error_iff (nd : Node) (priv : Bytes) (idx : Nat) (e
     rw [kholawCkdPriv_eq, hs, h]; rfl
 
 /-- `ChildKey` never raises `OverflowError` on a private Khovratovich-Law node (at any size of the
-left scalar: a sum that needs more than 32 bytes is refused with `Bip32KeyError`) -/
+left scalar: a sum `≥ 2^255`, in particular one that needs more than 32 bytes, is refused with
+`Bip32KeyError`) -/
 theorem kholawChildKey_kholaw_never_overflow (nd : Node) (idx : Nat) (k : Bytes)
     (hs : nd.scheme = .kholaw) (hp : nd.priv = some k) :
     kholawChildKey nd idx ≠ .error .overflow := by
@@ -869,17 +943,17 @@ theorem kholawChildKey_kholaw_never_overflow (nd : Node) (idx : Nat) (k : Bytes)
     · cases h2
     · rcases nodeOfPriv_error _ _ _ _ _ _ _ _ h2 with ⟨e, _⟩ | ⟨e, _⟩ <;> cases e
 
-/-- while the left scalar is below `2^256 - 2^227` the new left half fits in 32 bytes, so the size
+/-- while the left scalar is at most `2^255 - 2^227` the new left half is below `2^255`, so the size
 refusal of `ChildKey` cannot happen … -/
 theorem kholawChildKey_kholaw_no_overflow (nd : Node) (idx : Nat) (k : Bytes)
-    (hk : leftVal k + 2 ^ 227 ≤ 2 ^ 256) :
-    childLeftVal ((ckdZ nd k idx).take 32) (k.take 32) < 2 ^ 256 := by
+    (hk : leftVal k + 2 ^ 227 ≤ 2 ^ 255) :
+    childLeftVal ((ckdZ nd k idx).take 32) (k.take 32) < 2 ^ 255 := by
   have := childLeftVal_lt ((ckdZ nd k idx).take 32) (k.take 32)
   unfold leftVal at hk; omega
 
 /-- … and the derivation step fails only for `≡ 0 (mod L)` -/
 theorem kholawCkdPriv_kholaw_error_iff_of_lt (nd : Node) (k : Bytes) (idx : Nat) (e : Err)
-    (hs : nd.scheme = .kholaw) (hk : leftVal k + 2 ^ 227 ≤ 2 ^ 256) :
+    (hs : nd.scheme = .kholaw) (hk : leftVal k + 2 ^ 227 ≤ 2 ^ 255) :
     kholawCkdPriv nd k idx = .error e ↔
       e = .key ∧ childLeftVal ((ckdZ nd k idx).take 32) (k.take 32) % edL = 0 := by
   have hv := kholawChildKey_kholaw_no_overflow nd idx k hk
@@ -931,16 +1005,17 @@ theorem kholaw_path_never_overflow (l : List Nat) (nd : Node) (k : Bytes)
     · obtain ⟨k1, p1, s1, _⟩ := kholawChildKey_kholaw_priv_ok nd n1 i k hs hp h1
       exact ih n1 k1 s1 p1 h2
 
-/-- the size refusal never happens anywhere along a path of at most `2^28 - 1` levels: at every
-node `n` reached by a prefix `pre` of the path, the next derivation step (index `i`) computes a left
-half below `2^256`, so it can fail only with `Bip32KeyError` and only for `≡ 0 (mod L)` … -/
+/-- the size refusal never happens anywhere along a path `l` from a left scalar `kL` with
+`kL + |l|·2^227 ≤ 2^255`: at every node `n` reached by a prefix `pre` of the path, the next
+derivation step (index `i`) computes a left half below `2^255`, so it can fail only with
+`Bip32KeyError` and only for `≡ 0 (mod L)` … -/
 theorem kholaw_path_no_overflow (l : List Nat) (nd : Node) (k : Bytes)
     (hs : nd.scheme = .kholaw) (hp : nd.priv = some k)
-    (hk : leftVal k + l.length * 2 ^ 227 ≤ 2 ^ 256)
+    (hk : leftVal k + l.length * 2 ^ 227 ≤ 2 ^ 255)
     (pre : List Nat) (i : Nat) (post : List Nat) (hl : l = pre ++ i :: post) (n : Node)
     (hn : pre.foldlM kholawChildKey nd = .ok n) :
     ∃ k', n.priv = some k' ∧ n.scheme = .kholaw ∧
-      childLeftVal ((ckdZ n k' i).take 32) (k'.take 32) < 2 ^ 256 ∧
+      childLeftVal ((ckdZ n k' i).take 32) (k'.take 32) < 2 ^ 255 ∧
       ∀ e, kholawCkdPriv n k' i = .error e ↔
         e = .key ∧ childLeftVal ((ckdZ n k' i).take 32) (k'.take 32) % edL = 0 := by
   obtain ⟨k', p', s', -, b, -⟩ := kholaw_path_bound pre nd n k hs hp hn
@@ -948,7 +1023,7 @@ theorem kholaw_path_no_overflow (l : List Nat) (nd : Node) (k : Bytes)
     rw [hl, List.length_append, List.length_cons]; omega
   have hmul : (pre.length + 1) * 2 ^ 227 ≤ l.length * 2 ^ 227 := Nat.mul_le_mul_right _ hlen
   rw [Nat.add_mul, Nat.one_mul] at hmul
-  have hk' : leftVal k' + 2 ^ 227 ≤ 2 ^ 256 := by
+  have hk' : leftVal k' + 2 ^ 227 ≤ 2 ^ 255 := by
     unfold leftVal at *; omega
   exact ⟨k', p', s', kholawChildKey_kholaw_no_overflow n i k' hk',
     fun e => kholawCkdPriv_kholaw_error_iff_of_lt n k' i e s' hk'⟩
@@ -964,7 +1039,8 @@ theorem kholawMaster_ok (s : Scheme) (gen : Bytes → R (Bytes × Bytes)) (seed 
 
 /-- a Khovratovich-Law (or Icarus) master node followed by any path of at most 255 levels (the
 library's depth limit) never meets the size refusal: at every node reached along the path the next
-left half is below `2^256`, so a derivation step can fail only with `Bip32KeyError`, and only because
+left half is below `2^255` (a master scalar is below `2^254 + 2^253` and 255 levels add less than
+`255·2^227 < 2^253`), so a derivation step can fail only with `Bip32KeyError`, and only because
 the new left half is `≡ 0 (mod L)` -/
 theorem kholaw_master_path_no_overflow (gen : Bytes → R (Bytes × Bytes)) (seed : Bytes) (m : Node)
     (hgen : ∀ k cc, gen seed = .ok (k, cc) → Clamped (k.take 32))
@@ -972,13 +1048,13 @@ theorem kholaw_master_path_no_overflow (gen : Bytes → R (Bytes × Bytes)) (see
     (pre : List Nat) (i : Nat) (post : List Nat) (hsplit : l = pre ++ i :: post) (n : Node)
     (hn : pre.foldlM kholawChildKey m = .ok n) :
     ∃ k', n.priv = some k' ∧ n.scheme = .kholaw ∧
-      childLeftVal ((ckdZ n k' i).take 32) (k'.take 32) < 2 ^ 256 ∧
+      childLeftVal ((ckdZ n k' i).take 32) (k'.take 32) < 2 ^ 255 ∧
       ∀ e, kholawCkdPriv n k' i = .error e ↔
         e = .key ∧ childLeftVal ((ckdZ n k' i).take 32) (k'.take 32) % edL = 0 := by
   obtain ⟨k, cc, hg, hp, _, hs, _⟩ := kholawMaster_ok _ _ _ _ h
   have hc := hgen k cc hg
   apply kholaw_path_no_overflow l m k hs hp _ pre i post hsplit n hn
-  have := hc.lt255
+  have := hc.lt
   have : l.length * 2 ^ 227 ≤ 255 * 2 ^ 227 := Nat.mul_le_mul_right _ hl
   unfold leftVal; omega
 
